@@ -132,7 +132,10 @@ func qsRun(c qsCase, rep *qsReport) {
 		}
 	}
 	/* The spell. */
-	rep.Firings += vtime.AdvanceN(spell, func() { time.Sleep(2 * time.Millisecond) }, qsMaxFirings)
+	for i := 0; i < 10; i++ {
+		time.Sleep(time.Millisecond)
+		rep.Firings += vtime.AdvanceN(spell/10, func() { time.Sleep(2 * time.Millisecond) }, qsMaxFirings)
+	}
 	time.Sleep(5 * time.Millisecond)
 	for _, cl := range w.Drain() {
 		switch {
@@ -259,7 +262,12 @@ func qsBrokerShutdown(rep *qsReport) {
 		}
 	}
 	cancel() /* Shutdown; nobody takes the operator's lines any more. */
-	rep.Firings += vtime.AdvanceN(10*time.Minute, func() { time.Sleep(2 * time.Millisecond) }, qsMaxFirings)
+	/* In steps, with pauses: what reacts to the shutdown may arm its timers
+	a moment later. */
+	for i := 0; i < 100; i++ {
+		time.Sleep(2 * time.Millisecond)
+		rep.Firings += vtime.AdvanceN(6*time.Second, func() { time.Sleep(2 * time.Millisecond) }, qsMaxFirings)
+	}
 	time.Sleep(5 * time.Millisecond)
 	select {
 	case err := <-doRet:
